@@ -5,6 +5,10 @@ V = os.path.dirname(os.path.dirname(os.path.abspath(__file__)))
 ids = [json.loads(l)["id"] for l in open(os.path.join(V, "properties.jsonl"))]
 
 CHECKS = {
+ "C09": dict(cat="exploration", design="§4 C09",
+   technique="generated programs + all-paths structural validity predicate over the emitted bytecode (both outcomes of every conditional jump explored), plus a run-time stack-mismatch observation",
+   text="Every function emitted for the enumerated control-flow skeletons (8 loop kinds x wrappers to depth 2 quick / 3 thorough x break/continue/return x module/function), the example corpus and Hypothesis programs of C01/C07/C08/C12/C13/C15/C17 is decoded from the human-readable bytecode and explored over all branch outcomes: jump targets inside the function, no fall-off, done/jmp_pop never close more frames than open, equal open-frame count on every path into an instruction; the program is also run and must not report STACK MISMATCH. Exploration over programs; exhaustive over the paths of each analysed function.",
+   note="Frame effects per opcode are the trusted table (msv/props/c09.py); operand-stack shapes are only observed dynamically. The trace hook of the property's anchor is not used."),
  "C06": dict(cat="exploration", design="§4 C06",
    technique="metamorphic property-based testing: folded vs unfolded rendering of enumerated and Hypothesis-generated literal expression trees",
    text="All depth-1 trees over 23 boundary literals of the four kinds and the operators + - * / % << >> & | xor, unary minus, !, get, or (and a reduced-leaf depth-2 family, sampled in quick, complete in thorough), plus Hypothesis trees to depth 3, optionally inside a list literal, are rendered with literals inline and with every literal bound to a variable first; with typed print the two programs must print the same kind and text, and the folded one must be rejected by constant evaluation exactly when the unfolded one fails at run time (a folded form that is accepted and fails identically at run time is tolerated).",
